@@ -5,7 +5,7 @@ open Util
 
 let entries = [|
   "ParsePage"; "ParseHeapTuple"; "ReadTuples"; "ParseFile"; "ReadRows"; "ReadVarlena"; "DecodeTuple";
-  "ParsePGDatabase"; "ParsePGClass"; "ParsePGAttribute"; "ParsePGAuthID";
+  "ParsePGDatabase"; "ParsePGClass"; "ParsePGAttribute"; "ParsePGAuthID"; "parseDroppedColumns"; "parseAllAttributes";
   "ParseTOASTPointer"; "IsTOASTPointer"; "ReadTOASTTable"; "GetTOASTVerboseInfo"; "ReassembleTOAST"; "TOASTReader";
   "decompressPGLZ"; "decompressLZ4";
   "DecodeType"; "ParseJSONB"; "DecodeNumeric";
